@@ -83,8 +83,23 @@ impl Ctx {
 }
 
 pub fn tier_scale(tier: &str) -> u64 {
+    if let Ok(v) = std::env::var("PDS_TIER_SCALE") {
+        if let Ok(n) = v.parse::<u64>() {
+            return n.max(1);
+        }
+    }
     if tier == "thorough" {
         40
+    } else {
+        3
+    }
+}
+
+/// The sampling experiments and the allocator sweep keep scale 1 in the quick tier (they dominate
+/// the run time); only the generated histories are tripled there.
+pub fn exp_scale(tier: &str) -> u64 {
+    if tier == "thorough" {
+        tier_scale(tier)
     } else {
         1
     }
@@ -208,7 +223,7 @@ pub fn run(prop: &str, tier: &str, seed: u64, outdir: &str) {
     let mut fails = oracle(prop, &ctx.ops, &ctx.ans);
     crate::watch::phase(&format!("the {} sampling experiment", prop), if tier == "thorough" { 7200 } else { 1200 });
     // sampling experiments / measurements on the real crate (no ops file: case 0)
-    let mut exp = experiments::Exp { rng: SplitMix(seed ^ 0xE5E5), scale: ctx.tier_scale, stats: BTreeMap::new(), fails: vec![], evals: 0 };
+    let mut exp = experiments::Exp { rng: SplitMix(seed ^ 0xE5E5), scale: exp_scale(tier), stats: BTreeMap::new(), fails: vec![], evals: 0 };
     {
         // the experiments call the real crate directly; a panic there is a finding, not a crash
         let r = std::panic::catch_unwind(std::panic::AssertUnwindSafe(|| {
